@@ -536,6 +536,10 @@ def run(prog, chk, tier):
                        "the pinned values; the constant 27-byte header is audited structurally; the call chain from the decryptor to CurveFp.contains_point is followed hop by hop "
                        "(each hop hands the validation flag on, defaults are True, the guard dominates acceptance, rejection is converted to MalformedPointError) and every site "
                        "that binds validation to False is allow-listed. Interoperability with OpenSSL is not decided.")
+    from rules import iteronce as _iteronce
+    from rules.state import LIB_MODULES as _LIB
+
+    _iteronce.iterable_rules(prog, chk, "C09", _LIB)
     bec2.ecies_rules(prog, chk, "C09")
     bec2.block_rules(prog, chk, "C09", want={"ecc"})
     published_key_rules(prog, chk, "C09")
